@@ -6,9 +6,10 @@ back to the runtime unchanged; every error-handling site in `commands/*.rs` is c
 error accumulator filled in a non-diverging error arm must guard a failing exit; the `validate`
 sub-commands agree that reported problems produce a non-zero exit.
 """
+import os
 import re
 
-from .. import hirq
+from .. import facts, hirq
 
 META = {
     "level": "other",
@@ -500,3 +501,94 @@ def run(ctx):
             ctx.ok(R_val, {"fn": fshort, "outcome_locals": sorted(names), "fails_via": "conditional on outcome" if dependent else "Err arm of the validating call"})
         else:
             ctx.bad(R_val, "%s|no-failing-exit" % fshort, f.where, "no failing exit depends on the validation outcome", "validate can never report failure through its exit status")
+
+
+_SRC = {}
+
+
+def run_extra(ctx):
+    """rules armed after run(): they need nothing from run()'s locals"""
+    prog = ctx.prog
+    cli = prog.crate("warcraft_rs", "bin")
+    from .c07 import enclosing_if_conditions
+    # a validate command that *prints* an error-level finding ends in a failing exit: after the statement that prints it, every way
+    # on leads to a diverging statement — directly, or through a later `if` with the same condition as the one the print sits under
+    # (or a condition on a counter captured from the reported list)
+    R = ctx.rule("C20.reported-errors-fail-the-command", "in every validate function of commands/*.rs a println!/eprintln! whose text marks an error (`Error`, `✗`, `error(s) found`, `Too many`, `invalid .. reference`) is followed on every path by a failing exit", floor=6)
+    ERRTXT = re.compile(r"(^|\n)\s*Error\b|✗|error\(s\) found|Too many|[Ii]nvalid \w+ reference|validation failed|FAILED", re.S)
+    for f in cli.fn_list:
+        if f.kind == "Closure" or not f.hir or "::commands::" not in f.path or not re.search(r"validate", f.path.split("::")[-1]):
+            continue
+        body = f.hir["body"]
+        lets = {l["pat"]["name"]: l["init"] for l in hirq.find(body, "let") if l["pat"].get("k") == "bind" and l.get("init") is not None}
+        prints = []
+        for c in hirq.walk(body):
+            if c.get("k") == "call" and re.search(r"::_e?print$", c.get("fn") or ""):
+                txt = "".join(x["v"]["str"] for x in hirq.walk(c) if x.get("k") == "lit" and "str" in x.get("v", {}))
+                # (format strings with inline arguments are lowered to pieces the fact dump does not carry: the literal is read
+                # from the macro invocation at the call's own source position)
+                try:
+                    src = _SRC.setdefault(f.file, open(os.path.join(facts.REPO, f.file), encoding="utf-8").read().split("\n"))
+                    seg = "\n".join(src[(c.get("ln") or 1) - 1:(c.get("ln") or 1) + 3])
+                    m_ = re.search(r"e?println!\s*\(\s*\"((?:[^\"\\\\]|\\\\.)*)\"", seg)
+                    if m_:
+                        txt += m_.group(1).replace("\\n", "\n")
+                except OSError:
+                    pass
+                if ERRTXT.search(txt) and not re.search(r"✓", txt):
+                    prints.append((c, txt))
+        for c, txt in prints:
+            ctx.saw_fn(f)
+            # chain of enclosing blocks from the innermost outwards: (block, index of the statement holding the print)
+            chain = []
+
+            def find(n, acc):
+                if n is c:
+                    chain.extend(acc)
+                    return True
+                if isinstance(n, dict):
+                    if n.get("k") == "block":
+                        items = list(n.get("stmts") or []) + ([n["e"]] if n.get("e") is not None else [])
+                        for i, st_ in enumerate(items):
+                            if find(st_, acc + [(items, i)]):
+                                return True
+                        return False
+                    if n.get("k") == "closure":
+                        return False
+                    return any(find(v, acc) for v in n.values() if isinstance(v, (dict, list)))
+                if isinstance(n, list):
+                    return any(find(v, acc) for v in n)
+                return False
+            find(body, [])
+            conds = [hirq.render(cd) for w_, cd in enclosing_if_conditions(body, c) if w_ == "then"]
+            # locals holding the length of / captured from something a condition mentions (`let n = errors.len()`)
+            cond_names = {x["res"]["local"] for w_, cd in enclosing_if_conditions(body, c) for x in hirq.walk(cd) if x.get("k") == "path" and "local" in (x.get("res") or {})}
+            derived = {nm for nm, init in lets.items() if any(x.get("k") == "path" and (x.get("res") or {}).get("local") in cond_names for x in hirq.walk(init))}
+            fails = False
+            for items, i in reversed(chain):
+                for st_ in items[i + 1:]:
+                    if diverges(st_):
+                        fails = True
+                    elif st_.get("k") == "if" and st_.get("else") is None and diverges(st_["then"]):
+                        r_ = hirq.render(st_["c"])
+                        names = {x["res"]["local"] for x in hirq.walk(st_["c"]) if x.get("k") == "path" and "local" in (x.get("res") or {})}
+                        if r_ in conds or (names and names <= (derived | cond_names)):
+                            fails = True
+                    elif st_.get("k") == "if" and st_.get("else") is not None:
+                        # `if C { fail } else { .. }` under the same C, or `if !C { .. } else { fail }` (the complement)
+                        r_ = hirq.render(st_["c"])
+                        comp = r_[1:] if r_.startswith("!") else "!" + r_
+                        if (r_ in conds and diverges(st_["then"])) or (comp in conds and diverges(st_["else"])):
+                            fails = True
+                    if fails:
+                        break
+                if fails:
+                    break
+            # the print may itself be the message of the failing exit's sibling: `bail!` right in the same statement list is handled above
+            inst = {"fn": f.path.split("commands::")[-1], "text": txt.strip()[:50]}
+            if fails:
+                ctx.ok(R, inst)
+            else:
+                ctx.bad(R, "%s|reported-error-exits-0|%s" % (inst["fn"], re.sub(r"[^A-Za-z]+", "-", txt.strip())[:30]), "%s:%d" % (f.file, c.get("ln") or 0),
+                        "after printing `%s` the function can still return Ok(())" % txt.strip()[:60],
+                        "the command tells the user about an error and exits 0: scripts and CI treat the file as valid")
